@@ -142,6 +142,8 @@ def validate_sparse(seed=0, rounds=60):
                       M.hstack([m.asformat(f1), mb.asformat(f2)]))
         zr, zm = sp.csr_matrix((2, nc)), M.csr_matrix((2, nc))
         _same('vstack zero', sp.vstack([r, zr]), M.vstack([m, zm]))
+        _same('vstack float32', sp.vstack([r, zr], format='csr', dtype=np.float32), M.vstack([m, zm], format='csr', dtype=np.float32))
+        _same('astype float32', r.astype(np.float32), m.astype(np.float32))
         zr, zm = sp.csr_matrix((nr, 2)), M.csr_matrix((nr, 2))
         _same('hstack zero', sp.hstack([r, zr]), M.hstack([m, zm]))
         # coo construction from triples with duplicates / dense
@@ -322,7 +324,26 @@ def validate_h5(seed=0):
         if outs[0] != outs[1]:
             raise ModelMismatch(f"h5 error behaviour differs: {outs}")
         n += 1
+    # a closed file: same exception types for the same calls, falsy, contains nothing
     real.close()
+    model.close()
+    for probe in (lambda f: f['observation'], lambda f: f.attrs['shape'], lambda f: f.create_group('g9'), lambda f: bool(f),
+                  lambda f: 'observation' in f, lambda f: list(f.keys())):
+        outs = []
+        for f in (real, model):
+            try:
+                outs.append(('ok', probe(f)))
+            except Exception as e:      # noqa
+                outs.append(('raise', type(e).__name__))
+        if outs[0] != outs[1]:
+            raise ModelMismatch(f"h5 closed-file behaviour differs: {outs}")
+        n += 1
+    with h5py.File('sx-validate2.h5', 'w', driver='core', backing_store=False) as r2, H.File() as m2:
+        r2.attrs['shape'] = (1, 2)
+        m2.attrs['shape'] = (1, 2)
+    if bool(r2) != bool(m2):
+        raise ModelMismatch("h5: leaving a with-block closes the file")
+    n += 1
     return n
 
 
